@@ -297,3 +297,53 @@ Proof.
   { rewrite Z.mod_small; lia. }
   rewrite E2. destruct (Z.ltb_spec (Z.of_N sigs) (Z.of_N f + 1)), (N.ltb_spec sigs (f + 1)); try reflexivity; lia.
 Qed.
+
+(* ---------- the round as a whole ---------- *)
+(* An announced retry in a building round is inert in every step: nothing is observed, only empty observations are
+   valid, and the outcome is the previous outcome (so no root and no signature of that round's bundle, verified or
+   not, reaches an outcome). *)
+Theorem retry_round_inert max n prev q w co :
+  next_state (o_type prev) = Building -> q_retry q = true ->
+  get_observation Building q w = obs_empty /\
+  (forall o, validate_retry q o = true -> obs_is_empty o = true) /\
+  get_outcome max n prev q co = prev.
+Proof.
+  intros ST R. split; [unfold get_observation; now rewrite R|]. split.
+  - intros o. unfold validate_retry. rewrite R. cbn [andb]. destruct (obs_is_empty o); [reflexivity|discriminate].
+  - now apply retry_identity.
+Qed.
+
+(* whatever is returned next to a refusal is the empty observation *)
+Theorem refused_observation_empty verify_sigs enabled st cfg_e d dest init known offramp q w :
+  fst (observation_full verify_sigs enabled st cfg_e d dest init known offramp q w) <> Ok tt ->
+  snd (observation_full verify_sigs enabled st cfg_e d dest init known offramp q w) = obs_empty.
+Proof.
+  unfold observation_full. destruct (observation verify_sigs enabled st cfg_e d dest init known offramp q) as [[]| | |];
+    cbn [fst snd]; congruence.
+Qed.
+
+(* merkle roots are observed only in a building round without retry, and then they are the roots of the previous
+   outcome's selected ranges (w_roots) *)
+Theorem roots_observed_only_when_building st q w :
+  ob_roots (get_observation st q w) <> [] -> st = Building /\ q_retry q = false /\ ob_roots (get_observation st q w) = w_roots w.
+Proof.
+  unfold get_observation. destruct st; cbn [ob_roots]; try congruence.
+  destruct (q_retry q); cbn [obs_empty ob_roots]; [congruence|]. intros _. repeat split.
+Qed.
+
+(* the leader's honest query: a bundle comes only from the controller, asked for exactly the previous outcome's
+   ranges with the bound on-ramp addresses; a timeout becomes the retry query without bundle *)
+Theorem query_model_cases enabled st cfg_e init offramp ranges onramp ctrl q reqs :
+  query_model enabled st cfg_e init offramp ranges onramp ctrl = (Ok q, reqs) ->
+  (q = mkQuery false None /\ reqs = None /\ (enabled = false \/ st <> Building)) \/
+  (enabled = true /\ st = Building /\ cfg_e = false /\ query_requests ranges onramp = reqs /\ reqs <> None /\
+   ((exists b, ctrl = CtrlSigs b /\ q = mkQuery false (Some b)) \/ (ctrl = CtrlTimeout /\ q = mkQuery true None))).
+Proof.
+  unfold query_model. destruct enabled; cbn [negb]; [|intros H; inversion H; left; repeat split; now left].
+  destruct st; cbn [state_eqb negb]; try (intros H; inversion H; left; repeat split; right; discriminate).
+  destruct cfg_e; [discriminate|]. destruct (N.eqb init 2); [discriminate|].
+  destruct offramp; [|discriminate]. destruct (query_requests ranges onramp) as [l|] eqn:Q; [|discriminate].
+  destruct ctrl; intros H; inversion H; subst; right; repeat split; try discriminate.
+  - left. exists b. split; reflexivity.
+  - right. split; reflexivity.
+Qed.
